@@ -102,6 +102,24 @@ type Explorer struct {
 	// (the driver prints KNOWN-FINDING) and does not count towards MaxViolations.
 	Known      func(scenario, msg string) bool
 	knownShown map[string]bool
+	// ClaimDir enables dynamic work distribution between the shards of one run
+	// (a directory shared by them), see explore.
+	ClaimDir  string
+	countNext bool
+}
+
+// claim atomically claims the subtree rooted at the execution with picks np for
+// this shard (per scenario and bound layer).
+func (e *Explorer) claim(np []int) bool {
+	h := sha256.New()
+	fmt.Fprintf(h, "%s|%d|%v", e.Scenario, e.Bound, np)
+	name := filepath.Join(e.ClaimDir, fmt.Sprintf("claim-%x", h.Sum(nil)[:12]))
+	f, err := os.OpenFile(name, os.O_CREATE|os.O_EXCL|os.O_WRONLY, 0644)
+	if err != nil {
+		return false
+	}
+	f.Close()
+	return true
 }
 
 func (e *Explorer) Explore() {
@@ -181,8 +199,18 @@ func (e *Explorer) explore(prefix []int, depth int) {
 		e.Stats.Exhaustive = false
 		return
 	}
-	e.Stats.Executions++
-	e.Stats.Transitions += x.Steps
+	counted := true
+	if e.ClaimDir != "" && e.NShards > 1 {
+		if depth == 0 {
+			counted = e.Shard == 0
+		} else if depth == 1 {
+			counted = e.countNext
+		}
+	}
+	if counted {
+		e.Stats.Executions++
+		e.Stats.Transitions += x.Steps
+	}
 	if len(x.Points) > e.Stats.MaxDepth {
 		e.Stats.MaxDepth = len(x.Points)
 	}
@@ -193,7 +221,9 @@ func (e *Explorer) explore(prefix []int, depth int) {
 	for _, p := range x.Points {
 		used += p.Cost[p.Picked]
 	}
-	e.Stats.DevHistogram[strconv.Itoa(used)]++
+	if counted {
+		e.Stats.DevHistogram[strconv.Itoa(used)]++
+	}
 	ok := sha256.Sum256([]byte(x.Outcome))
 	var k16 [16]byte
 	copy(k16[:], ok[:])
@@ -236,6 +266,9 @@ func (e *Explorer) explore(prefix []int, depth int) {
 		}
 	}
 	for _, v := range x.Violations {
+		if !counted {
+			break // the owning shard reports it
+		}
 		if e.Known != nil && e.Known(e.Scenario, v.Msg) {
 			if e.knownShown == nil {
 				e.knownShown = map[string]bool{}
@@ -290,18 +323,35 @@ func (e *Explorer) explore(prefix []int, depth int) {
 			if cum[i]+p.Cost[alt] > e.Bound {
 				continue
 			}
-			if depth == 0 {
+			np := make([]int, i+1)
+			for j := 0; j < i; j++ {
+				np[j] = x.Points[j].Picked
+			}
+			np[i] = alt
+			own := true
+			if e.ClaimDir != "" && e.NShards > 1 {
+				// Dynamic work distribution: every shard runs the depth-1 executions
+				// (counted once, by the shard that owns them statically); the subtrees
+				// below them (depth-2 nodes) are claimed through files created with
+				// O_EXCL, so that shards that finish early take over remaining work.
+				switch depth {
+				case 0:
+					ord := e.topOrd
+					e.topOrd++
+					own = ord%e.NShards == e.Shard
+				case 1:
+					if !e.claim(np) {
+						continue
+					}
+				}
+			} else if depth == 0 {
 				ord := e.topOrd
 				e.topOrd++
 				if ord%e.NShards != e.Shard {
 					continue
 				}
 			}
-			np := make([]int, i+1)
-			for j := 0; j < i; j++ {
-				np[j] = x.Points[j].Picked
-			}
-			np[i] = alt
+			e.countNext = own
 			e.explore(np, depth+1)
 			if e.stop {
 				return
